@@ -533,3 +533,91 @@ Proof.
   - apply (Hall (o, n)). left. reflexivity.
   - destruct Hin as [Hin|Hin]; [left; subst r; exact Hr|right; exists r; auto].
 Qed.
+
+(* ---------------------------------------------------------------- what flushing leaves alone; termination *)
+Lemma send_seen : forall v c h used r0 sid nc, h_seen (sr_half (send v c h used r0 sid nc)) = h_seen h.
+Proof.
+  intros. unfold send.
+  destruct (add_pending (h_saved h) (cseq r0)) as [[[pre sl] sv1] reld].
+  destruct (add_contiguous v (h_queue h) (sadd (cseq r0) (clen r0))) as [[tk q1] nx].
+  match goal with |- context [if ?b then (length ?l, 0) else ?f] => destruct (if b then (length l, 0) else f) as [ndx kskip] end.
+  destruct (keep_conv v (skipn ndx (map CPage pre ++ r0 :: map CPage tk)) kskip) as [[sv2 alloc] pk].
+  reflexivity.
+Qed.
+
+Lemma contig_loop_len : forall v q l, (length (snd (fst (contig_loop v q l))) <= length q)%nat.
+Proof.
+  intros v. induction q as [|p t IH]; intros l; cbn [contig_loop]; [cbn; lia|].
+  destruct (diffv v l (pseq p) =? 0); [|cbn; lia].
+  specialize (IH (sadd l (zlen (pbytes p)))).
+  destruct (contig_loop v t (sadd l (zlen (pbytes p)))) as [[tk q1] l2]. cbn [fst snd length] in *. lia.
+Qed.
+
+Lemma add_contiguous_len : forall v q l, (length (snd (fst (add_contiguous v q l))) <= length q)%nat.
+Proof. intros. destruct q as [|p t]; [cbn; lia|]. unfold add_contiguous. apply contig_loop_len. Qed.
+
+Lemma close_c2s_facts : forall v s,
+  h_closed (s_half (fst (close_c2s v s))) = true /\ s_rev_closed (fst (close_c2s v s)) = s_rev_closed s /\
+  s_rev_seen (fst (close_c2s v s)) = s_rev_seen s /\ h_seen (s_half (fst (close_c2s v s))) = h_seen (s_half s) /\
+  h_queue (s_half (fst (close_c2s v s))) = [].
+Proof. intros. unfold close_c2s. destruct (s_rev_closed s); cbn; auto. Qed.
+
+(* sendToConnection + close, on a state s with the half h: the reverse half and the timestamps are
+   left alone, the queue does not grow *)
+Lemma send_st_facts : forall v s h used r0,
+  let s1 := fst (fst (fst (send_st v s h used r0))) in
+  s_rev_closed s1 = s_rev_closed s /\ s_rev_seen s1 = s_rev_seen s /\ h_seen (s_half s1) = h_seen h /\
+  (length (h_queue (s_half s1)) <= length (h_queue h))%nat.
+Proof.
+  intros v s h used r0. unfold send_st.
+  pose proof (send_seen v (s_cfg s) h used r0 (s_sid s) (s_ncalls s)) as Hseen.
+  pose proof (send_queue v (s_cfg s) h used r0 (s_sid s) (s_ncalls s)) as Hq.
+  pose proof (add_contiguous_len v (h_queue h) (sadd (cseq r0) (clen r0))) as Hlen. rewrite <- Hq in Hlen.
+  set (r := send v (s_cfg s) h used r0 (s_sid s) (s_ncalls s)) in *.
+  destruct (sr_panic r); [cbn; auto|].
+  destruct (sr_end r).
+  - set (s0 := mkSt (s_cfg s) (s_exists s) (sr_half r) (s_rev_closed s) (s_rev_seen s) (sr_used r) (s_sid s) (Datatypes.S (s_ncalls s))).
+    pose proof (close_c2s_facts v s0) as (_ & F2 & F3 & F4 & F5).
+    destruct (close_c2s v s0) as [s2 ev2]. cbn [fst] in *. subst s0. cbn [s_rev_closed s_rev_seen s_half] in *.
+    rewrite F5. cbn [length]. split; [exact F2|]. split; [exact F3|]. split; [congruence|lia].
+  - cbn. auto.
+Qed.
+
+Lemma skip_flush_facts : forall v s,
+  let s1 := fst (fst (skip_flush v s)) in
+  s_rev_closed s1 = s_rev_closed s /\ s_rev_seen s1 = s_rev_seen s /\ h_seen (s_half s1) = h_seen (s_half s) /\
+  (h_queue (s_half s) = [] -> h_closed (s_half s1) = true) /\
+  (h_queue (s_half s) <> [] -> (length (h_queue (s_half s1)) < length (h_queue (s_half s)))%nat).
+Proof.
+  intros v s. unfold skip_flush. destruct (h_queue (s_half s)) as [|p q'] eqn:Eq.
+  - pose proof (close_c2s_facts v s) as (F1 & F2 & F3 & F4 & _).
+    destruct (close_c2s v s) as [s2 ev2]. cbn [fst] in *. repeat split; auto. intros H; contradiction.
+  - set (h1 := mkHalf (h_pages (s_half s)) (h_saved (s_half s)) q' (h_next (s_half s)) (h_seen (s_half s)) (h_closed (s_half s))).
+    pose proof (send_st_facts v s h1 (s_used s) (CPage p)) as (F1 & F2 & F3 & F4).
+    destruct (send_st v s h1 (s_used s) (CPage p)) as [[[s1 nx] ev] pk]. cbn [fst] in *.
+    subst h1. cbn [h_seen h_queue] in *.
+    destruct (nx =? INVALID); cbn [fst set_half set_next s_rev_closed s_rev_seen s_half h_seen h_queue];
+      (split; [exact F1|]; split; [exact F2|]; split; [exact F3|]; split; [intros H; discriminate|]; intros _; cbn [length]; lia).
+Qed.
+
+Lemma fa_loop_closed : forall v fuel s, h_closed (s_half s) = true -> fa_loop fuel v s = (s, [], false).
+Proof. intros v [|f] s H; cbn [fa_loop]; [reflexivity|]. rewrite H. reflexivity. Qed.
+
+(* FlushAll's loop ends with the data half closed when its fuel exceeds the queue length *)
+Lemma fa_loop_facts : forall v fuel s,
+  let r := fa_loop fuel v s in
+  s_rev_closed (fst (fst r)) = s_rev_closed s /\
+  ((length (h_queue (s_half s)) < fuel)%nat -> snd r = false -> h_closed (s_half (fst (fst r))) = true).
+Proof.
+  intros v. induction fuel as [|f IH]; intros s; cbn [fa_loop].
+  - cbn. split; [reflexivity|lia].
+  - destruct (h_closed (s_half s)) eqn:Hcl; [cbn; auto|].
+    pose proof (skip_flush_facts v s) as (F1 & _ & _ & F4 & F5).
+    destruct (skip_flush v s) as [[s1 ev1] pk1]. cbn [fst] in *.
+    destruct pk1; [cbn; split; [exact F1|intros _ Hc; discriminate]|].
+    destruct (h_queue (s_half s)) as [|p q'] eqn:Eq.
+    + specialize (F4 eq_refl). rewrite (fa_loop_closed v f s1 F4). cbn [fst snd]. split; [exact F1|]. intros _ _. exact F4.
+    + specialize (IH s1). destruct (fa_loop f v s1) as [[s2 ev2] pk2]. cbn [fst snd] in *.
+      destruct IH as (I1 & I2). split; [congruence|].
+      intros Hlen Hpk. apply I2; [|exact Hpk]. specialize (F5 ltac:(discriminate)). cbn [length] in *. lia.
+Qed.
